@@ -1262,6 +1262,38 @@ fn scope_with(args: &[RVal]) -> Option<Scope> {
   Some(Scope::from(c))
 }
 
+/// The same bindings with every null - at any depth - carrying a diagnostic text of its own, the way nulls produced by
+/// failed operations do: the text is not part of the value, so no result may depend on it.
+fn scope_with_annotated_nulls(args: &[RVal]) -> Option<Scope> {
+  use dmntk_feel::values::{Value, Values};
+  fn annotate(v: Value, n: &mut u32) -> Value {
+    match v {
+      Value::Null(_) => {
+        *n += 1;
+        Value::Null(Some(format!("diagnostic text {}", n)))
+      }
+      Value::List(items) => Value::List(Values::new(items.as_vec().iter().map(|i| annotate(i.clone(), n)).collect())),
+      Value::Context(ctx) => {
+        let mut c = FeelContext::default();
+        for (k, e) in ctx.iter() {
+          c.set_entry(k, annotate(e.clone(), n));
+        }
+        Value::Context(c)
+      }
+      other => other,
+    }
+  }
+  let mut n = 0u32;
+  let mut c = FeelContext::default();
+  for (i, a) in args.iter().enumerate() {
+    c.set_entry(&Name::from(format!("p{}", i)), annotate(a.to_value()?, &mut n));
+  }
+  if n == 0 {
+    return None;
+  }
+  Some(Scope::from(c))
+}
+
 fn eval_text(scope: &Scope, text: &str) -> Result<dmntk_feel::values::Value, String> {
   let node = dmntk_feel_parser::parse_expression(scope, text, false).map_err(|e| e.to_string())?;
   dmntk_feel_evaluator::evaluate(scope, &node).map_err(|e| e.to_string())
@@ -1359,6 +1391,19 @@ pub fn run() {
       };
       let expected = reference(spec.name, args);
       let shown_args = args.iter().map(|a| a.show()).collect::<Vec<_>>().join(", ");
+      // nulls that carry a diagnostic text (as produced by failed operations) must behave like the literal null
+      if let Some(ascope) = scope_with_annotated_nulls(args) {
+        cases.fetch_add(1, Ordering::Relaxed);
+        if let Ok(v) = eval_text(&ascope, &text) {
+          if crate::rval::show_value_full(&v) != crate::rval::show_value_full(&observed) {
+            run.violation(
+              &format!("null-diagnostic-text-observable:{}/{}", spec.name, args.len()),
+              &format!("{}({}) gives {} but {} when the nulls among the arguments carry a diagnostic text (as nulls produced by failed operations do)", spec.name, shown_args, show_value(&observed), show_value(&v)),
+              json!({"engine":"c08","text":format!("{}({})", spec.name, shown_args.replace("null", "(1 + \"a\")")),"bindings":[],"expected":crate::replay::value_to_rval(&observed).show()}),
+            );
+          }
+        }
+      }
       match compare(&observed, &expected) {
         Cmp::Same => {
           compared.fetch_add(1, Ordering::Relaxed);
